@@ -24,7 +24,7 @@ RULE = (
     "all-SUCCEEDED; distinct = (workflow status, sorted multiset of stage statuses, spec shape)."
 )
 ASSUMPTIONS = ["SQLite backend", "quiescence = queue_messages empty after virtual-time warps; wait-budget exhaustion (max_stage_wait_retries=6) ending TERMINAL is legal and counted"]
-MIN_OBS = {"quiescent_runs": {"quick": 1000, "thorough": 20000}, "nonsuccess_final_states": {"quick": 100, "thorough": 2000}, "late_start_runs": {"quick": 100, "thorough": 800}, "commit_faults_injected": {"quick": 150, "thorough": 1500}, "pair_schedule_quiescent_runs": {"quick": 800, "thorough": 10000}}
+MIN_OBS = {"quiescent_runs": {"quick": 1000, "thorough": 20000}, "nonsuccess_final_states": {"quick": 100, "thorough": 2000}, "late_start_runs": {"quick": 100, "thorough": 800}, "commit_faults_injected": {"quick": 150, "thorough": 1500}, "pair_schedule_quiescent_runs": {"quick": 400, "thorough": 10000}}
 TIMEOUT = {"quick": 600, "thorough": 3000}
 
 HOLD_TYPES = ["StartStage", "CompleteStage", "CompleteTask", "RunTask", "CancelStage", "CompleteWorkflow", "ContinueParentStage", "JumpToStage"]
@@ -59,7 +59,7 @@ def gen_cases(tier: str, seed: int) -> list[dict]:
     cases += [{"kind": "late_start", "i": i, "seed": seed} for i in range(6 if tier == "quick" else 40)]
     cases += [{"kind": "commit_fault", "i": i, "seed": seed} for i in range(10 if tier == "quick" else 80)]
     stride = 3 if tier == "quick" else 1
-    for sp in range(10):
+    for sp in ((0, 2, 4, 8, 9) if tier == "quick" else range(10)):
         for phase in range(stride):
             cases.append({"kind": "pairs", "spec": sp, "seed": seed, "stride": stride, "phase": phase, "sample": 6 if tier == "quick" else 30})
     cases += [{"kind": "commit_fault", "i": i, "seed": seed, "at": "first_write"} for i in range(6 if tier == "quick" else 60)]
